@@ -423,7 +423,7 @@ fn check_view<V: TooDeeOps<u32>>(v: &V, w: [u64; 4], o: (usize, usize), wk: &mut
     ensure!(v.num_cols() == ec && v.num_rows() == er && v.is_empty() == (ec == 0), format!("{}/size-accessors", what), "{}: num_cols/num_rows/is_empty disagree with size()", what);
     let addr = |c: usize, r: usize| wk.base + ((o.1 + y0 + r) * wk.pc + o.0 + x0 + c) * 4;
     ensure!(v.rows().len() == er, format!("{}/rows-len", what), "{}: rows().len() {} expected {}", what, v.rows().len(), er);
-    for (r, row) in v.rows().enumerate() {
+    for (r, row) in v.rows().take(er + 1).enumerate() {
         ensure!(row.len() == ec && (ec == 0 || row.as_ptr() as usize == addr(0, r)), format!("{}/rows", what), "{}: rows() item {} is at offset {} len {}, expected offset {} len {}", what, r, (row.as_ptr() as isize - wk.base as isize) / 4, row.len(), (addr(0, r) - wk.base) / 4, ec);
     }
     for r in 0..er {
@@ -435,7 +435,7 @@ fn check_view<V: TooDeeOps<u32>>(v: &V, w: [u64; 4], o: (usize, usize), wk: &mut
         }
     }
     for c in 0..ec {
-        let col: Vec<usize> = v.col(c).map(|e| e as *const u32 as usize).collect();
+        let col: Vec<usize> = v.col(c).take(er + 1).map(|e| e as *const u32 as usize).collect();
         let want: Vec<usize> = (0..er).map(|r| addr(c, r)).collect();
         ensure!(col == want, format!("{}/col", what), "{}: col({}) visits the wrong cells", what, c);
     }
